@@ -47,6 +47,28 @@ type vEvent struct {
 	ver    byte
 }
 
+// vDrawEvent: a storage event with solver-chosen arguments. Choices that fork the exploration (kind, client,
+// filter, topic, retain result) are drawn only for the kinds that use them; the other arguments are symbolic.
+func vDrawEvent() vEvent {
+	e := vEvent{kind: vChoose(12), cid: vChoose(2)}
+	e.pid, e.sei, e.alias, e.mexp, e.pfmt, e.rm = vU16(), vU32(), vU16(), vU32(), vByte(), vU16()
+	e.subID = int(vU16())
+	e.expire, e.takeov, e.pfmtF, e.nl, e.rap, e.dup, e.clean = vBool(), vBool(), vBool(), vBool(), vBool(), vBool(), vBool()
+	e.qos, e.rh, e.ver = vByteIn("\x00\x01\x02"), vByteIn("\x00\x01\x02"), vByteIn("\x04\x05")
+	switch e.kind {
+	case 2, 3:
+		e.filter = vChoose(2)
+	case 4:
+		e.topic, e.origin = vChoose(2), vChoose(2)
+		e.r = []int64{1, -1, 0}[vChoose(3)]
+	case 5:
+		e.topic, e.origin = vChoose(2), vChoose(2)
+	case 9:
+		e.topic = vChoose(2)
+	}
+	return e
+}
+
 func vMsgProps(e vEvent) packets.Properties {
 	return packets.Properties{TopicAlias: e.alias, TopicAliasFlag: e.alias != 0, MessageExpiryInterval: e.mexp, PayloadFormat: e.pfmt, PayloadFormatFlag: e.pfmtF,
 		ContentType: "ct", ResponseTopic: "rt", CorrelationData: []byte{9}, SubscriptionIdentifier: []int{e.subID}, User: []packets.UserProperty{{Key: "k", Val: "v"}}}
@@ -201,8 +223,7 @@ func VerifC22Step() {
 	n := vParam("EVENTS", 2)
 	var evs []vEvent
 	for i := 0; i < n; i++ {
-		evs = append(evs, vEvent{kind: vChoose(12), cid: vChoose(2), expire: vBool(), takeov: vBool(), filter: vChoose(2), topic: vChoose(2), r: []int64{1, -1, 0}[vChoose(3)], pid: vU16(), sei: vU32(), qos: vByteIn("\x00\x01\x02"),
-			alias: vU16(), mexp: vU32(), pfmt: vByte(), pfmtF: vBool(), subID: int(vU16()), rh: vByteIn("\x00\x01\x02"), nl: vBool(), rap: vBool(), dup: vBool(), origin: vChoose(2), rm: vU16(), clean: vBool(), ver: vByteIn("\x04\x05")})
+		evs = append(evs, vDrawEvent())
 	}
 	var snaps []vSnapshot
 	for _, h := range hooks {
